@@ -2,7 +2,7 @@
 from __future__ import annotations
 
 from vlib import chdriver
-from vlib.chdriver import all_of, assume, check, cover, fail, pick, rng
+from vlib.chdriver import all_of, assume, check, cover, fail, pick, pick_int, rng
 from vlib.fixtures import concrete, mk_host, new_sim, quiet
 
 SOURCES = [
@@ -164,6 +164,52 @@ def link_gate(ena: bool, enb: bool, s1: int, bw: int, from_a: bool):
         check(len(entered) == 0, "a frame crossed a link whose end interface is disabled")
         check(not sent, "send_frame reported success over a down link")
         check(link.current_load == 0, "a down link carries load")
+
+
+def link_toggle(bw: int, s1: int, s2: int, dis_a: bool, dis_b: bool, ticks: int, reenable_mid_tick: bool, acc1: bool):
+    """A link that carried traffic and then loses one or both ends: a down link carries no load, every tick starts
+    with zero load whether the link is up or down, and after re-enabling the full per-tick capacity is available."""
+    assume(all_of(bw > 0, s1 >= 0, s2 >= 0, rng(ticks, 1, 3)))
+    with concrete():
+        sim, a, b, link = _two_hosts()
+        na, nb = a.network_interface[1], b.network_interface[1]
+    link.bandwidth = bw
+    f1, f2 = FakeFrame(s1), FakeFrame(s2)
+    got = []
+    object.__setattr__(nb, "receive_frame", lambda fr: (got.append(fr), acc1 if fr is f1 else True)[1])
+    object.__setattr__(na, "receive_frame", lambda fr: True)
+    na.send_frame(f1)
+    check(link.current_load <= link.bandwidth, "link.current_load exceeds link.bandwidth")
+    if dis_a:
+        na.disable()
+    if dis_b:
+        nb.disable()
+    if dis_a or dis_b:
+        cover("went_down")
+        check(not link.is_up, "link reports up although an end interface is disabled")
+        check(link.current_load == 0, "a down link still reports load")
+    t = 0
+    for _ in range(pick_int(ticks, 1, 3)):
+        t += 1
+        sim.pre_timestep(t)
+        check(link.current_load == 0, lambda: "the link does not start the tick with zero load" + (" (link down)" if not link.is_up else ""))
+        if not reenable_mid_tick or _ > 0:
+            pass
+        sim.apply_timestep(t)
+    # bring the ends back (in the middle of the current tick) and use the link
+    if dis_a:
+        na.enable()
+    if dis_b:
+        nb.enable()
+    object.__setattr__(nb, "receive_frame", lambda fr: (got.append(fr), True)[1])
+    check(link.is_up, "link not up after re-enabling both ends")
+    check(link.current_load == 0, "link comes (back) up in a fresh tick with a non-zero load")
+    n0 = len(got)
+    na.send_frame(f2)
+    if s2 <= bw:
+        cover("reused")
+        check(len(got) == n0 + 1, "a frame within the per-tick bandwidth was dropped on a link that carried nothing this tick")
+    check(link.current_load <= link.bandwidth, "link.current_load exceeds link.bandwidth")
 
 
 def switch_flood(bw: int, s1: int, s2: int, pre: int, nested: bool):
@@ -359,6 +405,13 @@ HARNESSES = {
         "thorough": [{"fixed": {}, "timeout": 300}],
         "cover": ["up", "down"],
         "bounds": "all 4 enabled/disabled combinations, either direction, arbitrary size/bandwidth",
+    },
+    "link_toggle": {
+        "fn": link_toggle,
+        "quick": [{"fixed": {}, "timeout": 200}],
+        "thorough": [{"fixed": {}, "timeout": 400}],
+        "cover": ["went_down", "reused"],
+        "bounds": "one send, then either/both/no end disabled, 1-3 ticks, re-enable, one more send; sizes/bandwidth unbounded solver integers",
     },
     "switch_flood": {
         "fn": switch_flood,
